@@ -29,7 +29,7 @@ def run_stack_mc(ck):
     return st, ill
 
 
-def run_stacks(ck, st, only, flavour="asan", second_flavour=None):
+def run_stacks(ck, st, only, flavour="asanl", second_flavour=None):
     specs = []
     names = {}
     for i, c in enumerate(st):
